@@ -53,10 +53,43 @@ func min(a, b time.Duration) time.Duration {
 
 var root = core.Root()
 
+// Scratch mode (development aid, never used by a registered command): VERIF_REPO=<dir> points the
+// harness at another go-critic tree (a scratch worktree with a seeded change) through an alternative
+// go.mod; evidence and replays then go to VERIF_SCRATCH_OUT (default $TMPDIR/verif-scratch) instead of /verif.
+var (
+	outRoot = root
+	modFlag = ""
+)
+
+func initScratch() {
+	repo := os.Getenv("VERIF_REPO")
+	if repo == "" || repo == "/repo" {
+		return
+	}
+	outRoot = os.Getenv("VERIF_SCRATCH_OUT")
+	if outRoot == "" {
+		outRoot = filepath.Join(os.TempDir(), "verif-scratch")
+	}
+	os.MkdirAll(outRoot, 0o755)
+	mod, err := os.ReadFile(filepath.Join(root, "harness", "go.mod"))
+	if err != nil {
+		fatal2("%v", err)
+	}
+	alt := filepath.Join(outRoot, fmt.Sprintf("alt-%d.mod", os.Getpid()))
+	text := strings.Replace(string(mod), "=> /repo", "=> "+repo, 1)
+	if err := os.WriteFile(alt, []byte(text), 0o644); err != nil {
+		fatal2("%v", err)
+	}
+	sum, _ := os.ReadFile(filepath.Join(root, "harness", "go.sum"))
+	os.WriteFile(strings.TrimSuffix(alt, ".mod")+".sum", sum, 0o644)
+	modFlag = " -modfile=" + alt
+	fmt.Printf("SCRATCH MODE: go-critic tree %s, output under %s\n", repo, outRoot)
+}
+
 func env() []string {
 	e := os.Environ()
 	set := map[string]string{
-		"GOFLAGS":     "-mod=mod",
+		"GOFLAGS":     "-mod=mod" + modFlag,
 		"GOPROXY":     "off",
 		"GOSUMDB":     "off",
 		"GOTOOLCHAIN": "local",
@@ -87,6 +120,7 @@ func main() {
 		fmt.Println("usage: run check <id> <quick|thorough> | replay <path> | build")
 		os.Exit(2)
 	}
+	initScratch()
 	switch os.Args[1] {
 	case "check":
 		if len(os.Args) < 4 {
@@ -270,7 +304,7 @@ func deathSignature(id, stderr string) (sig, msg string) {
 
 func writeReplay(id, sig, msg string, c json.RawMessage) string {
 	h := sha256.Sum256(append([]byte(sig+"\x00"), c...))
-	dir := filepath.Join(root, "replays", id)
+	dir := filepath.Join(outRoot, "replays", id)
 	os.MkdirAll(dir, 0o755)
 	path := filepath.Join(dir, hex.EncodeToString(h[:8])+".json")
 	b, _ := json.MarshalIndent(map[string]any{"property": id, "signature": sig, "message": msg, "case": c}, "", " ")
@@ -478,17 +512,41 @@ func check(id, tier string) int {
 	}
 
 	// ---- native fuzz campaigns (thorough only)
-	fuzzExecs := map[string]string{}
-	if tier == "thorough" {
+	fuzzExecs := map[string]any{}
+	if tier == "thorough" || os.Getenv("VERIF_FUZZ_IN_QUICK") != "" {
+		budget, err := time.ParseDuration(cfg.FuzzTime)
+		if err != nil || budget <= 0 {
+			budget = 2 * time.Minute
+		}
+		if s := os.Getenv("VERIF_FUZZ_TIME"); s != "" { // development aid
+			if d, err := time.ParseDuration(s); err == nil {
+				budget = d
+			}
+		}
 		for _, target := range cfg.FuzzTargets {
-			v, inc, note := runFuzz(id, target, cfg.FuzzTime, rundir)
-			fuzzExecs[target] = note
-			for _, f := range v {
-				if isKnown(f.Signature) {
-					merged.KnownHits[f.Signature]++
-				} else {
-					addViolation(f.Signature, f.Message, f.Case)
+			v, kh, inc, st := runFuzz(id, target, budget, cfg, bin, rundir, seed, isKnown)
+			fuzzExecs[target] = map[string]any{
+				"execs": st.Execs, "oracle_evaluations": st.res.Evaluations, "rejected_inputs": st.res.Rejected,
+				"distinct_nontrivial": len(st.nt), "candidates": st.Candidates, "confirmed": st.Confirmed, "budget": budget.String(),
+			}
+			merged.Evaluations += st.res.Evaluations
+			merged.Rejected += st.res.Rejected
+			for h := range st.nt {
+				nt[h] = struct{}{}
+			}
+			for k, n := range st.res.Counters {
+				merged.Counters["fuzz:"+target+":"+k] += n
+			}
+			for s, n := range kh {
+				merged.KnownHits[s] += n
+			}
+			for _, smp := range st.res.Samples {
+				if len(merged.Samples) < sampleCap()+4 {
+					merged.Samples = append(merged.Samples, map[string]any{"kind": "native-fuzz:" + target, "sample": smp})
 				}
+			}
+			for _, f := range v {
+				addViolation(f.Signature, f.Message, f.Case)
 			}
 			inconclusive = append(inconclusive, inc...)
 		}
@@ -535,9 +593,9 @@ func check(id, tier string) int {
 	if len(inconclusive) > 0 {
 		ev["inconclusive"] = inconclusive
 	}
-	os.MkdirAll(filepath.Join(root, "evidence"), 0o755)
+	os.MkdirAll(filepath.Join(outRoot, "evidence"), 0o755)
 	eb, _ := json.MarshalIndent(ev, "", " ")
-	os.WriteFile(filepath.Join(root, "evidence", id+".json"), eb, 0o644)
+	os.WriteFile(filepath.Join(outRoot, "evidence", id+".json"), eb, 0o644)
 
 	// ---- report
 	for _, k := range known {
@@ -628,7 +686,14 @@ func replay(path string) int {
 	if err != nil {
 		fatal2("%v", err)
 	}
-	b, err := os.ReadFile(abs)
+	first := abs
+	if st, err := os.Stat(abs); err == nil && st.IsDir() {
+		// a directory of replay files of one property
+		if fs, _ := filepath.Glob(filepath.Join(abs, "*.json")); len(fs) > 0 {
+			first = fs[0]
+		}
+	}
+	b, err := os.ReadFile(first)
 	if err != nil {
 		fatal2("%v", err)
 	}
